@@ -7,6 +7,7 @@
 package main
 
 import (
+	"bytes"
 	"errors"
 	"fmt"
 	"math/rand"
@@ -659,6 +660,9 @@ func runL1(c *lib.Ctx, ls *lib.Livesim, id string, in c11in) (o l1obs) {
 	return runL1x(c, ls, id, in, in)
 }
 
+// formCalls counts the patch requests; in the quick tier every fourth one is repeated in all query forms.
+var formCalls int
+
 // runL1x: as runL1; failures are reported with failIn as replay input (the request history the pair belongs to).
 func runL1x(c *lib.Ctx, ls *lib.Livesim, id string, in c11in, failIn any) (o l1obs) {
 	fail := func(key, what string) {
@@ -688,6 +692,32 @@ func runL1x(c *lib.Ctx, ls *lib.Livesim, id string, in c11in, failIn any) (o l1o
 	o.PT2 = d2.Root().SelectAttrValue("publishTime", "")
 	rp := ls.Get(fmt.Sprintf("%s&nowMS=%d", loc, in.T2))
 	o.Status = rp.Status
+	// the same request in other legitimate forms of the query (parameter order, encoding by net/url, nowDate,
+	// unknown extra parameters): the answer must be the same patch
+	formCalls++
+	if lu, err := url.Parse(loc); err == nil && (formCalls%4 == 1 || c.Thorough() || c.Replay != "") {
+		ptv := lu.Query().Get("publishTime")
+		esc := url.QueryEscape(ptv)
+		now := fmt.Sprintf("nowMS=%d", in.T2)
+		nowDate := "nowDate=" + url.QueryEscape(time.UnixMilli(in.T2-1).UTC().Format("2006-01-02T15:04:05.000Z"))
+		enc := url.Values{"publishTime": {ptv}, "nowMS": {fmt.Sprint(in.T2)}}.Encode() // keys sorted: nowMS first
+		forms := [][2]string{
+			{"clock-first", now + "&publishTime=" + esc},
+			{"values-encode", enc},
+			{"nowDate-after", "publishTime=" + esc + "&" + nowDate},
+			{"nowDate-first", nowDate + "&publishTime=" + esc},
+			{"extra-first", "verifx=1&publishTime=" + esc + "&" + now},
+			{"extra-middle", "publishTime=" + esc + "&verifx=1&" + now},
+			{"extra-last", now + "&publishTime=" + esc + "&verifx=1"},
+		}
+		for _, f := range forms {
+			r2 := ls.Get(lu.Path + "?" + f[1])
+			if r2.Status != rp.Status || !bytes.Equal(r2.Body, rp.Body) {
+				fail("query-form-differs:"+f[0], fmt.Sprintf("the patch request with query %q is answered %d (%d bytes), with %q it is answered %d (%d bytes)",
+					lu.RawQuery+"&"+now, rp.Status, len(rp.Body), f[1], r2.Status, len(r2.Body)))
+			}
+		}
+	}
 	pt1, e1 := time.Parse(time.RFC3339, o.PT1)
 	pt2, e2 := time.Parse(time.RFC3339, o.PT2)
 	if e1 != nil || e2 != nil {
